@@ -91,7 +91,7 @@ tree below `root`, which hangs in lane `plane` of `par`; the leaves in `Al` hold
 `root = MAXN` is the empty tree.  `rank`: parent pointers inside strictly decrease some measure (no cycles). -/
 structure SubS (q : Q K) (Al Kp S : Nat → Prop) (root par plane : Nat) : Prop where
   rootOk : (root = MAXN ∧ ∀ n, ¬ (Al n ∨ Kp n)) ∨
-    (Al root ∧ ∃ nd : Node K, q.nodes[root]? = some nd ∧ nd.parent = par ∧ nd.plane = plane)
+    ((Al root ∨ Kp root) ∧ ∃ nd : Node K, q.nodes[root]? = some nd ∧ nd.parent = par ∧ nd.plane = plane)
   par : ∀ n, (Al n ∨ Kp n) → n ≠ root → ∃ nd pn : Node K, q.nodes[n]? = some nd ∧ Al nd.parent ∧
     q.nodes[nd.parent]? = some pn ∧ pn.leaf = false ∧ pn.children[nd.plane]? = some n
   child : ∀ (n : Nat) (nd : Node K), Al n → q.nodes[n]? = some nd → nd.leaf = false →
@@ -111,7 +111,7 @@ theorem SubS.frame {q q' : Q K} {Al Kp S : Nat → Prop} {root par plane : Nat} 
   refine ⟨?_, ?_, ?_, ?_, ?_, ?_⟩
   · rcases h.rootOk with h0 | ⟨a, nd, e, r⟩
     · exact Or.inl h0
-    · exact Or.inr ⟨a, nd, by rw [hn _ (Or.inl a)]; exact e, r⟩
+    · exact Or.inr ⟨a, nd, by rw [hn _ a]; exact e, r⟩
   · intro n hT hne
     obtain ⟨nd, pn, a1, a2, a3, a4, a5⟩ := h.par n hT hne
     exact ⟨nd, pn, by rw [hn n hT]; exact a1, a2, by rw [hn _ (Or.inl a2)]; exact a3, a4, a5⟩
@@ -208,7 +208,7 @@ theorem SubS.combine {q : Q K} {nid par plane r0 r1 r2 r3 : Nat}
     intro n h; rcases h with h | h
     · exact Or.inl (Or.inr (Or.inr (Or.inr (Or.inr h))))
     · exact Or.inr (Or.inr (Or.inr (Or.inr h)))
-  refine ⟨Or.inr ⟨Or.inl rfl, nd, hnd, hpar, hplane⟩, ?_, ?_, ?_, ?_, ?_⟩
+  refine ⟨Or.inr ⟨Or.inl (Or.inl rfl), nd, hnd, hpar, hplane⟩, ?_, ?_, ?_, ?_, ?_⟩
   · intro n hT hne
     rcases hcase n hT hne with h | h | h | h
     · exact hparOne A0 K0 S0 r0 0 h0 k0 (fun n a => (sub0 n (Or.inl a)).elim id (fun _ => Or.inr (Or.inl a))) n h
@@ -225,7 +225,7 @@ theorem SubS.combine {q : Q K} {nid par plane r0 r1 r2 r3 : Nat}
         intro A Kp S r k hs hr hnid hsub
         rcases hs.rootOk with ⟨e, _⟩ | ⟨a, cn, e, e1, e2⟩
         · exact absurd e hr
-        · exact ⟨hsub r (Or.inl a), fun e' => hnid (e' ▸ Or.inl a), cn, e, e1, e2⟩
+        · exact ⟨hsub r a, fun e' => hnid (e' ▸ a), cn, e, e1, e2⟩
       rcases hlane l c hc with ⟨rfl, rfl⟩ | ⟨rfl, rfl⟩ | ⟨rfl, rfl⟩ | ⟨rfl, rfl⟩
       · exact rootOf _ _ _ _ _ h0 hcm n0 sub0
       · exact rootOf _ _ _ _ _ h1 hcm n1 sub1
@@ -675,3 +675,549 @@ theorem rebalLeafLoop_spec (ws : Array (WsItem K)) (N0 P0 : Nat) (wok : WsOk ws 
                   rw [hw] at e1; cases e1; rw [hlf] at e2; cases e2
                 · exact hno ⟨i, hi, p, hp'⟩
       · simp [hk] at h
+
+/-! ### elementary subtrees -/
+
+theorem SubS.empty (q : Q K) (par plane : Nat) :
+    SubS q (fun _ => False) (fun _ => False) (fun _ => False) MAXN par plane :=
+  ⟨Or.inl ⟨rfl, fun _ h => h.elim id id⟩, fun _ h => (h.elim id id).elim, fun _ _ h => h.elim, fun _ _ h => h.elim,
+    fun _ h => h.elim, ⟨fun _ => 0, fun _ h => (h.elim id id).elim⟩⟩
+
+/-- a kept old subtree root, re-parented -/
+theorem SubS.kept (q : Q K) (k par plane : Nat) (nd : Node K) (h : q.nodes[k]? = some nd) (hp : nd.parent = par)
+    (hl : nd.plane = plane) : SubS q (fun _ => False) (fun n => n = k) (fun _ => False) k par plane := by
+  refine ⟨Or.inr ⟨Or.inr rfl, nd, h, hp, hl⟩, ?_, fun _ _ h => h.elim, fun _ _ h => h.elim, fun _ h => h.elim,
+    ⟨fun _ => 0, ?_⟩⟩
+  · intro n hn hne
+    rcases hn with hn | hn
+    · exact hn.elim
+    · exact absurd hn hne
+  · intro n hn hne
+    rcases hn with hn | hn
+    · exact hn.elim
+    · exact absurd hn hne
+
+/-- one new leaf node holding the proxies of `S` -/
+theorem SubS.leafNode (q : Q K) (L par plane : Nat) (S : Nat → Prop) (nd : Node K) (h : q.nodes[L]? = some nd)
+    (hleaf : nd.leaf = true) (hp : nd.parent = par) (hl : nd.plane = plane)
+    (h1 : ∀ (l p : Nat), nd.children[l]? = some p → p ≠ MAXN →
+      S p ∧ ∃ pr : Proxy, q.proxies[p]? = some pr ∧ pr.node = L ∧ pr.lane = l)
+    (h2 : ∀ p, S p → ∃ pr : Proxy, q.proxies[p]? = some pr ∧ pr.node = L ∧ nd.children[pr.lane]? = some p) :
+    SubS q (fun n => n = L) (fun _ => False) S L par plane := by
+  refine ⟨Or.inr ⟨Or.inl rfl, nd, h, hp, hl⟩, ?_, ?_, ?_, ?_, ⟨fun _ => 0, ?_⟩⟩
+  · intro n hn hne
+    rcases hn with hn | hn
+    · exact absurd hn hne
+    · exact hn.elim
+  · intro n x hn hx hxl
+    subst hn; rw [h] at hx; cases hx; rw [hleaf] at hxl; cases hxl
+  · intro n x hn hx _ l p hc hcm
+    subst hn; rw [h] at hx; cases hx
+    exact h1 l p hc hcm
+  · intro p hs
+    obtain ⟨pr, a1, a2, a3⟩ := h2 p hs
+    exact ⟨pr, nd, a1, a2, by rw [a2]; exact h, hleaf, a3⟩
+  · intro n hn hne
+    rcases hn with hn | hn
+    · exact absurd hn hne
+    · exact hn.elim
+
+/-! ### allocation -/
+
+/-- `free_list.pop().unwrap_or_else(push)` allocates exactly one node -/
+theorem allocNode_spec (q : Q K) (N0 : Nat) (hn : q.freeList.Nodup) (hl : ∀ n ∈ q.freeList, n < N0) (h0 : N0 ≤ q.nodes.size) :
+    RFrame q (allocNode q).1 ∧ (allocNode q).1.proxies = q.proxies ∧ (∀ m, Al q (allocNode q).1 m ↔ m = (allocNode q).2) ∧
+      (allocNode q).2 < (allocNode q).1.nodes.size ∧
+      (∀ m, m ≠ (allocNode q).2 → (allocNode q).1.nodes[m]? = q.nodes[m]?) := by
+  unfold allocNode
+  cases hf : q.freeList with
+  | nil =>
+    refine ⟨⟨rfl, by simp, ⟨[], by simp [hf]⟩, rfl⟩, rfl, ?_, by simp, ?_⟩
+    · intro m
+      simp only [Al, hf, List.not_mem_nil, false_and, false_or, Array.size_push]
+      omega
+    · intro m hm
+      dsimp only at hm ⊢
+      by_cases hlt : m < q.nodes.size
+      · simp [Array.getElem?_push, Nat.ne_of_lt hlt]
+      · rw [Array.getElem?_eq_none (by simp; omega), Array.getElem?_eq_none (by omega)]
+  | cons n rest =>
+    have hnr : n ∉ rest := by rw [hf] at hn; exact (List.nodup_cons.1 hn).1
+    have hnlt : n < q.nodes.size := by have := hl n (by simp [hf]); omega
+    refine ⟨⟨rfl, Nat.le_refl _, ⟨[n], by simp [hf]⟩, rfl⟩, rfl, ?_, hnlt, fun _ _ => rfl⟩
+    intro m
+    simp only [Al, hf, List.mem_cons]
+    constructor
+    · rintro (⟨a | a, b⟩ | ⟨a, b⟩)
+      · exact a
+      · exact absurd a b
+      · omega
+    · intro e; subst e; exact Or.inl ⟨Or.inl rfl, hnr⟩
+
+/-- the two allocations at the start of the leaf case (internal id first, then leaf id) -/
+def alloc2 (q : Q K) (hasInternal hasLeaf : Bool) : Q K × Nat × Nat :=
+  let a := if hasInternal then allocNode q else (q, MAXN)
+  let b := if hasLeaf then allocNode a.1 else (a.1, MAXN)
+  (b.1, a.2, b.2)
+
+structure Alloc2Out (q : Q K) (hasInternal hasLeaf : Bool) (qb : Q K) (I L : Nat) : Prop where
+  frame : RFrame q qb
+  prox : qb.proxies = q.proxies
+  al : ∀ m, Al q qb m ↔ ((hasInternal = true ∧ m = I) ∨ (hasLeaf = true ∧ m = L))
+  ltI : hasInternal = true → I < qb.nodes.size
+  ltL : hasLeaf = true → L < qb.nodes.size
+  ne : hasInternal = true → hasLeaf = true → I ≠ L
+  same : ∀ m, ¬ Al q qb m → qb.nodes[m]? = q.nodes[m]?
+  noI : hasInternal = false → I = MAXN
+  noL : hasLeaf = false → L = MAXN
+
+theorem alloc2_spec (q : Q K) (N0 : Nat) (hn : q.freeList.Nodup) (hl : ∀ n ∈ q.freeList, n < N0) (h0 : N0 ≤ q.nodes.size)
+    (hasInternal hasLeaf : Bool) :
+    Alloc2Out q hasInternal hasLeaf (alloc2 q hasInternal hasLeaf).1 (alloc2 q hasInternal hasLeaf).2.1
+      (alloc2 q hasInternal hasLeaf).2.2 := by
+  obtain ⟨f1, p1, a1, l1, s1⟩ := allocNode_spec q N0 hn hl h0
+  have st1 : (allocNode q).1.freeList.Nodup ∧ (∀ n ∈ (allocNode q).1.freeList, n < N0) ∧ N0 ≤ (allocNode q).1.nodes.size := by
+    obtain ⟨p, e⟩ := f1.fl
+    refine ⟨?_, fun n hn' => hl n (by rw [e]; simp [hn']), Nat.le_trans h0 f1.nsize⟩
+    rw [e] at hn; exact (List.nodup_append.1 hn).2.1
+  obtain ⟨f2, p2, a2, l2, s2⟩ := allocNode_spec (allocNode q).1 N0 st1.1 st1.2.1 st1.2.2
+  have ff : ∀ {P : Prop}, false = true → P := fun h => Bool.noConfusion h
+  have tf : ∀ {P : Prop}, true = false → P := fun h => Bool.noConfusion h
+  cases hasInternal <;> cases hasLeaf
+  · -- nothing allocated
+    simp only [alloc2, Bool.false_eq_true, if_false]
+    refine ⟨RFrame.refl q, rfl, ?_, ff, ff, ff, fun _ _ => rfl,
+      fun _ => rfl, fun _ => rfl⟩
+    intro m
+    simp only [Al, Bool.false_eq_true, false_and, or_false, iff_false, not_or, not_and]
+    exact ⟨fun a b => b a, fun a => by omega⟩
+  · -- leaf only
+    obtain ⟨f1', p1', a1', l1', s1'⟩ := allocNode_spec q N0 hn hl h0
+    simp only [alloc2, Bool.false_eq_true, if_false, if_true]
+    refine ⟨f1', p1', ?_, ff, fun _ => l1', ff, ?_, fun _ => rfl, tf⟩
+    · intro m; rw [a1' m]; simp
+    · intro m hm; exact s1' m (fun e => hm ((a1' m).2 e))
+  · -- internal only
+    simp only [alloc2, Bool.false_eq_true, if_false, if_true]
+    refine ⟨f1, p1, ?_, fun _ => l1, ff, fun _ => ff, ?_, tf, fun _ => rfl⟩
+    · intro m; rw [a1 m]; simp
+    · intro m hm; exact s1 m (fun e => hm ((a1 m).2 e))
+  · -- both
+    simp only [alloc2, if_true]
+    have hdis := Al.disjoint f1 f2 hn hl h0
+    have htr := Al.trans_iff f1 f2 hn hl h0
+    refine ⟨f1.trans f2, by rw [p2, p1], ?_, fun _ => Nat.lt_of_lt_of_le l1 f2.nsize, fun _ => l2, ?_, ?_,
+      tf, tf⟩
+    · intro m; rw [htr m, a1 m, a2 m]; simp
+    · intro _ _ e
+      exact hdis _ ((a1 _).2 rfl) ((a2 _).2 e)
+    · intro m hm
+      rw [htr m, a1 m, a2 m] at hm
+      rw [s2 m (fun e => hm (Or.inr e)), s1 m (fun e => hm (Or.inl e))]
+
+theorem vec4_eq {α} (v : Vector α 4) (a b c d : α) (h0 : v[0]? = some a) (h1 : v[1]? = some b) (h2 : v[2]? = some c)
+    (h3 : v[3]? = some d) : v = #v[a, b, c, d] := by
+  apply Vector.ext
+  intro i hi
+  have : i = 0 ∨ i = 1 ∨ i = 2 ∨ i = 3 := by omega
+  rcases this with rfl | rfl | rfl | rfl <;> simp at h0 h1 h2 h3 ⊢ <;> assumption
+
+/-- postcondition of a call of `do_recurse_rebalance` on the slice `indices` -/
+structure RebalOut (ws : Array (WsItem K)) (q : Q K) (indices : Array Nat) (par plane : Nat) (q' : Q K) (id : Nat) : Prop where
+  frame : RFrame q q'
+  nodeSame : ∀ n, ¬ Al q q' n → ¬ KeptIn ws indices n → q'.nodes[n]? = q.nodes[n]?
+  keptSame : ∀ k, KeptIn ws indices k → ∃ nd nd' : Node K, q.nodes[k]? = some nd ∧ q'.nodes[k]? = some nd' ∧
+    nd'.children = nd.children ∧ nd'.leaf = nd.leaf ∧ nd'.boxes = nd.boxes ∧ nd'.dirty = nd.dirty ∧ nd'.changed = nd.changed
+  proxySame : ∀ p, ¬ LeafIn ws indices p → q'.proxies[p]? = q.proxies[p]?
+  proxyData : ∀ p, LeafIn ws indices p → ∃ pr pr' : Proxy, q.proxies[p]? = some pr ∧ q'.proxies[p]? = some pr' ∧ pr'.data = pr.data
+  sub : SubS q' (Al q q') (KeptIn ws indices) (LeafIn ws indices) id par plane
+  alClean : ∀ (n : Nat) (nd : Node K), Al q q' n → q'.nodes[n]? = some nd → nd.dirty = false
+  alLt : ∀ n, Al q q' n → n < q'.nodes.size
+
+theorem rebalLeaf_spec (ws : Array (WsItem K)) (N0 P0 : Nat) (wok : WsOk ws N0 P0) (q : Q K) (indices : Array Nat)
+    (par plane : Nat) (r : Q K × Nat × Aabb3 K) (hsz : indices.size ≤ 4)
+    (h : rebalLeaf ws q indices par plane = some r) (hst : StOk ws N0 P0 q) (hnd : indices.toList.Nodup) :
+    RebalOut ws q indices par plane r.1 r.2.1 := by
+  unfold rebalLeaf at h
+  cases hfl : leafFlags ws indices.toList (false, false) with
+  | none => simp [hfl] at h
+  | some fl =>
+    obtain ⟨hasLeaf, hasInternal⟩ := fl
+    simp only [hfl] at h
+    obtain ⟨hall, hL, hI⟩ := leafFlags_spec ws _ _ _ _ _ hfl
+    simp only [Bool.false_eq_true, false_or] at hL hI
+    cases ha : (if hasInternal = true then allocNode q else (q, MAXN)) with | mk qa I =>
+    rw [ha] at h
+    dsimp only at h
+    cases hb : (if hasLeaf = true then allocNode qa else (qa, MAXN)) with | mk qb L =>
+    rw [hb] at h
+    dsimp only at h
+    have A2 : Alloc2Out q hasInternal hasLeaf qb I L := by
+      have := alloc2_spec q N0 hst.flNodup hst.flLt hst.n0 hasInternal hasLeaf
+      simp only [alloc2, ha, hb] at this
+      exact this
+    cases hloop : rebalLeafLoop ws L I indices.toList 0
+        { q := qb, leafAabb := invalidBox, internalAabb := invalidBox, leafBoxes := Vector.replicate 4 invalidBox,
+          internalBoxes := Vector.replicate 4 invalidBox, proxyIds := Vector.replicate 4 MAXN,
+          internalIds := Vector.replicate 4 MAXN, laneWithLeaf := MAXN } with
+    | none => simp [hloop] at h
+    | some a =>
+      simp only [hloop] at h
+      have o := rebalLeafLoop_spec ws N0 P0 wok L I _ _ _ _ hloop hnd
+      split at h
+      · cases h
+      · rename_i hlw
+        -- the final state, lane by lane
+        generalize hnI : (⟨if hasLeaf = true then a.internalBoxes.setIfInBounds a.laneWithLeaf a.leafAabb else a.internalBoxes,
+            if hasLeaf = true then a.internalIds.setIfInBounds a.laneWithLeaf L else a.internalIds,
+            par, plane, false, false, false⟩ : Node K) = nodeI at h
+        generalize hnL : (⟨a.leafBoxes, a.proxyIds, if hasInternal = true then I else par,
+            if hasInternal = true then a.laneWithLeaf else plane, true, false, false⟩ : Node K) = nodeL at h
+        have hfin : (∀ m : Nat, r.1.nodes[m]? = if hasLeaf = true ∧ m = L then some nodeL else if hasInternal = true ∧ m = I then some nodeI
+              else a.q.nodes[m]?) ∧
+            r.1.proxies = a.q.proxies ∧ r.1.freeList = a.q.freeList ∧ r.1.dirtyNodes = a.q.dirtyNodes ∧
+            r.1.nodes.size = a.q.nodes.size ∧ r.2.1 = (if hasInternal = true then I else L) := by
+          have hIlt : hasInternal = true → I < a.q.nodes.size := fun hh => by rw [o.nsize]; exact A2.ltI hh
+          have hLlt : hasLeaf = true → L < a.q.nodes.size := fun hh => by rw [o.nsize]; exact A2.ltL hh
+          cases hasInternal <;> cases hasLeaf
+          · simp only [Bool.false_eq_true, if_false, Option.some.injEq] at h
+            subst h
+            simp
+          · simp only [Bool.false_eq_true, if_false, if_true, writeNode, hLlt rfl, Option.some.injEq] at h
+            subst h
+            refine ⟨?_, rfl, rfl, rfl, by simp, rfl⟩
+            intro m
+            simp only [Array.getElem?_setIfInBounds, Bool.false_eq_true, false_and, if_false, true_and]
+            by_cases hm : L = m
+            · subst hm; simp [hLlt rfl]
+            · simp [hm, Ne.symm hm]
+          · simp only [Bool.false_eq_true, if_false, if_true, writeNode, hIlt rfl, Option.some.injEq] at h
+            subst h
+            refine ⟨?_, rfl, rfl, rfl, by simp, rfl⟩
+            intro m
+            simp only [Array.getElem?_setIfInBounds, Bool.false_eq_true, false_and, if_false, true_and]
+            by_cases hm : I = m
+            · subst hm; simp [hIlt rfl]
+            · simp [hm, Ne.symm hm]
+          · have hne := A2.ne rfl rfl
+            simp only [if_true, writeNode, hIlt rfl, Array.size_setIfInBounds, hLlt rfl, Option.some.injEq] at h
+            subst h
+            refine ⟨?_, rfl, rfl, rfl, by simp, rfl⟩
+            intro m
+            simp only [Array.getElem?_setIfInBounds, true_and, Array.size_setIfInBounds]
+            by_cases hm : L = m
+            · subst hm; simp [hLlt rfl]
+            · by_cases hm2 : I = m
+              · subst hm2; simp [hIlt rfl, hm, Ne.symm hm]
+              · simp [hm, hm2, Ne.symm hm, Ne.symm hm2]
+        obtain ⟨hG, hprox2, hfree2, hdirty2, hsize2, hid⟩ := hfin
+        clear h
+        have cI : nodeI.children = (if hasLeaf = true then a.internalIds.setIfInBounds a.laneWithLeaf L else a.internalIds) := by
+          rw [← hnI]
+        have pI : nodeI.parent = par ∧ nodeI.plane = plane ∧ nodeI.leaf = false ∧ nodeI.dirty = false := by
+          rw [← hnI]; exact ⟨rfl, rfl, rfl, rfl⟩
+        have cL : nodeL.children = a.proxyIds ∧ nodeL.parent = (if hasInternal = true then I else par) ∧
+            nodeL.plane = (if hasInternal = true then a.laneWithLeaf else plane) ∧ nodeL.leaf = true ∧ nodeL.dirty = false := by
+          rw [← hnL]; exact ⟨rfl, rfl, rfl, rfl, rfl⟩
+        clear hnI hnL
+        -- bookkeeping
+        have hlen4 : indices.toList.length ≤ 4 := by simpa using hsz
+        have hpos : ∀ i, i ∈ indices → ∃ (j : Nat) (hj : j < indices.toList.length), indices.toList[j] = i := by
+          intro i hi
+          exact List.getElem_of_mem (by simpa using hi)
+        have hAl : ∀ m, Al q r.1 m ↔ ((hasInternal = true ∧ m = I) ∨ (hasLeaf = true ∧ m = L)) := by
+          intro m
+          rw [← A2.al m]
+          unfold Al
+          rw [hfree2, o.free, hsize2, o.nsize]
+        have hKeptNotAl : ∀ k, KeptIn ws indices k → ¬ Al q r.1 k := by
+          rintro k ⟨i, _, it, e, e1, rfl⟩ (⟨x, _⟩ | ⟨x, _⟩)
+          · exact hst.keptFree i it e e1 x
+          · have := (wok.keptLt i it e e1).1; have := hst.n0; omega
+        have hitem := o.item
+        simp only [Nat.zero_add] at hitem
+        -- an entry is of one kind only
+        have hkind : ∀ i n p, IsKept ws i n → IsLeafItem ws i p → False := by
+          rintro i n p ⟨it, e, e1, _⟩ ⟨it', e', e1', _⟩
+          rw [e] at e'; cases e'; rw [e1] at e1'; cases e1'
+        -- the lane holding the new leaf
+        have hlw : hasLeaf = true → ∃ (i : Nat) (hi : i < indices.toList.length), (∃ p, IsLeafItem ws indices.toList[i] p) ∧ a.laneWithLeaf = i := by
+          intro hh
+          rcases o.lane with ⟨i, hi, hp, e⟩ | ⟨hno, _⟩
+          · exact ⟨i, hi, hp, by simpa using e⟩
+          · exact absurd (hL.1 hh) hno
+        have hnL : hasLeaf = true → r.1.nodes[L]? = some nodeL := by
+          intro hh; rw [hG L]; simp [hh]
+        -- the new leaf node and its proxies
+        have hLeafNode : hasLeaf = true → SubS r.1 (fun n => n = L) (fun _ => False) (LeafIn ws indices) L nodeL.parent nodeL.plane := by
+          intro hh
+          refine SubS.leafNode r.1 L _ _ _ nodeL (hnL hh) cL.2.2.2.1 rfl rfl ?_ ?_
+          · intro l' p hc hcm
+            rw [cL.1] at hc
+            by_cases hlt : l' < indices.toList.length
+            · obtain ⟨_, it, e, f1, f2⟩ := hitem l' hlt
+              cases hlf : it.isLeaf with
+              | true =>
+                obtain ⟨c1, _, _, _, pr, c5, c6⟩ := f1 hlf
+                rw [c1] at hc; cases hc
+                exact ⟨⟨indices.toList[l'], by simpa using List.getElem_mem hlt, it, e, hlf, rfl⟩, _,
+                  by rw [hprox2]; exact c6, rfl, rfl⟩
+              | false =>
+                obtain ⟨_, _, c3, _⟩ := f2 hlf
+                rw [c3] at hc
+                exact absurd (replicate4_get _ _ _ hc) hcm
+            · obtain ⟨c1, _⟩ := o.lanesSame l' (Or.inr (by omega))
+              rw [c1] at hc
+              exact absurd (replicate4_get _ _ _ hc) hcm
+          · rintro p ⟨i, hi, it, e, hlf, rfl⟩
+            obtain ⟨j, hj, ej⟩ := hpos i hi
+            obtain ⟨_, it', e', f1, _⟩ := hitem j hj
+            rw [ej, e] at e'; cases e'
+            obtain ⟨c1, _, _, _, pr, c5, c6⟩ := f1 hlf
+            exact ⟨_, by rw [hprox2]; exact c6, rfl, by rw [cL.1]; exact c1⟩
+        have hKeptL : ∀ k, KeptIn ws indices k ↔ ∃ i ∈ indices.toList, IsKept ws i k := by
+          intro k
+          constructor
+          · rintro ⟨i, hi, it, e⟩; exact ⟨i, by simpa using hi, it, e⟩
+          · rintro ⟨i, hi, it, e⟩; exact ⟨i, by simpa using hi, it, e⟩
+        have hLeafL : ∀ k, LeafIn ws indices k ↔ ∃ i ∈ indices.toList, IsLeafItem ws i k := by
+          intro k
+          constructor
+          · rintro ⟨i, hi, it, e⟩; exact ⟨i, by simpa using hi, it, e⟩
+          · rintro ⟨i, hi, it, e⟩; exact ⟨i, by simpa using hi, it, e⟩
+        -- nodes of the final state that are not freshly allocated
+        have hOld : ∀ m, ¬ Al q r.1 m → r.1.nodes[m]? = a.q.nodes[m]? := by
+          intro m hm
+          rw [hAl m] at hm
+          rw [hG m]
+          have h1 : ¬ (hasLeaf = true ∧ m = L) := fun hh => hm (Or.inr hh)
+          have h2 : ¬ (hasInternal = true ∧ m = I) := fun hh => hm (Or.inl hh)
+          simp only [h1, h2, if_false]
+        have hframe : RFrame q r.1 := by
+          obtain ⟨pp, e⟩ := A2.frame.fl
+          refine ⟨by rw [hprox2, o.psize, A2.prox], ?_, ⟨pp, by rw [hfree2, o.free]; exact e⟩, by rw [hdirty2, o.dirty]; exact A2.frame.dirty⟩
+          rw [hsize2, o.nsize]; exact A2.frame.nsize
+        have hsubst : SubS r.1 (Al q r.1) (KeptIn ws indices) (LeafIn ws indices) r.2.1 par plane := by
+          by_cases hhI : hasInternal = true
+          · -- an internal node with up to four lanes
+            have hnI : r.1.nodes[I]? = some nodeI := by
+              rw [hG I]
+              by_cases hx : hasLeaf = true ∧ I = L
+              · exact absurd hx.2 (A2.ne hhI hx.1)
+              · simp [hx, hhI]
+            have hlaneSub : ∀ j, j < 4 → ∃ rj, nodeI.children[j]? = some rj ∧
+                SubS r.1 (fun n => hasLeaf = true ∧ j = a.laneWithLeaf ∧ n = L)
+                  (fun n => ∃ hj : j < indices.toList.length, IsKept ws indices.toList[j] n)
+                  (fun p => hasLeaf = true ∧ j = a.laneWithLeaf ∧ LeafIn ws indices p) rj I j := by
+              intro j hj4
+              -- lane `j` is not the lane of the new leaf when it holds a kept entry
+              have hnotlw : ∀ (hj : j < indices.toList.length) (n : Nat), IsKept ws indices.toList[j] n →
+                  ¬ (hasLeaf = true ∧ j = a.laneWithLeaf) := by
+                rintro hj n hk ⟨hh, e⟩
+                obtain ⟨i, hi, ⟨p, hp⟩, e'⟩ := hlw hh
+                have : i = j := by omega
+                subst this
+                exact hkind _ _ _ hk hp
+              by_cases c1 : ∃ (hj : j < indices.toList.length) (n : Nat), IsKept ws indices.toList[j] n
+              · obtain ⟨hj, k, hk⟩ := c1
+                obtain ⟨_, it, e, _, f2⟩ := hitem j hj
+                have hlf : it.isLeaf = false := by
+                  obtain ⟨it', e', e1, _⟩ := hk; rw [e] at e'; cases e'; exact e1
+                have hko : it.orig = k := by
+                  obtain ⟨it', e', _, e2⟩ := hk; rw [e] at e'; cases e'; exact e2
+                obtain ⟨c1', _, _, _, cn, c5, c6⟩ := f2 hlf
+                have hnal := hKeptNotAl k ⟨indices.toList[j], by simpa using List.getElem_mem hj, it, e, hlf, hko⟩
+                refine ⟨k, ?_, ?_⟩
+                · rw [cI]
+                  by_cases hh : hasLeaf = true
+                  · have : a.laneWithLeaf ≠ j := fun e' => hnotlw hj k hk ⟨hh, e'.symm⟩
+                    simp only [hh, if_true, Vector.getElem?_setIfInBounds, this, if_false]
+                    rw [c1', hko]
+                  · rw [if_neg hh, c1', hko]
+                · refine (SubS.kept r.1 k I j _ (by rw [hOld k hnal, ← hko]; exact c6) rfl rfl).congr ?_ ?_ ?_
+                  · intro n
+                    constructor
+                    · exact fun hf => hf.elim
+                    · rintro ⟨hh, e', _⟩; exact hnotlw hj k hk ⟨hh, e'⟩
+                  · intro n
+                    constructor
+                    · intro e'; subst e'; exact ⟨hj, hk⟩
+                    · rintro ⟨_, it', e', _, e2⟩
+                      rw [e] at e'; cases e'; rw [← e2, hko]
+                  · intro n
+                    constructor
+                    · exact fun hf => hf.elim
+                    · rintro ⟨hh, e', _⟩; exact hnotlw hj k hk ⟨hh, e'⟩
+              · by_cases c2 : hasLeaf = true ∧ j = a.laneWithLeaf
+                · obtain ⟨hh, ej⟩ := c2
+                  refine ⟨L, ?_, ?_⟩
+                  · rw [cI]; simp only [hh, if_true, Vector.getElem?_setIfInBounds, ← ej, if_true, hj4]
+                  · have := hLeafNode hh
+                    rw [cL.2.1, cL.2.2.1] at this
+                    simp only [hhI, if_true, ← ej] at this
+                    refine this.congr ?_ ?_ ?_
+                    · intro n; exact ⟨fun e' => ⟨hh, ej, e'⟩, fun e' => e'.2.2⟩
+                    · intro n
+                      constructor
+                      · exact fun hf => hf.elim
+                      · rintro ⟨hj, hk⟩; exact c1 ⟨hj, n, hk⟩
+                    · intro n; exact ⟨fun e' => ⟨hh, ej, e'⟩, fun e' => e'.2.2⟩
+                · refine ⟨MAXN, ?_, ?_⟩
+                  · have hbase : a.internalIds[j]? = some MAXN := by
+                      by_cases hj : j < indices.toList.length
+                      · obtain ⟨_, it, e, f1, f2⟩ := hitem j hj
+                        cases hlf : it.isLeaf with
+                        | true =>
+                          obtain ⟨_, _, c3, _⟩ := f1 hlf
+                          rw [c3]; simp [hj4]
+                        | false =>
+                          exact absurd ⟨hj, it.orig, it, e, hlf, rfl⟩ c1
+                      · obtain ⟨_, c2', _⟩ := o.lanesSame j (Or.inr (by omega))
+                        rw [c2']; simp [hj4]
+                    rw [cI]
+                    by_cases hh : hasLeaf = true
+                    · have : a.laneWithLeaf ≠ j := fun e' => c2 ⟨hh, e'.symm⟩
+                      simp only [hh, if_true, Vector.getElem?_setIfInBounds, this, if_false]
+                      exact hbase
+                    · rw [if_neg hh]; exact hbase
+                  · refine (SubS.empty r.1 I j).congr ?_ ?_ ?_
+                    · intro n
+                      exact ⟨fun hf => hf.elim, fun e' => c2 ⟨e'.1, e'.2.1⟩⟩
+                    · intro n
+                      exact ⟨fun hf => hf.elim, fun ⟨hj, hk⟩ => c1 ⟨hj, n, hk⟩⟩
+                    · intro n
+                      exact ⟨fun hf => hf.elim, fun e' => c2 ⟨e'.1, e'.2.1⟩⟩
+            obtain ⟨r0, k0, s0⟩ := hlaneSub 0 (by omega)
+            obtain ⟨r1, k1, s1⟩ := hlaneSub 1 (by omega)
+            obtain ⟨r2, k2, s2⟩ := hlaneSub 2 (by omega)
+            obtain ⟨r3, k3, s3⟩ := hlaneSub 3 (by omega)
+            have hch := vec4_eq _ _ _ _ _ k0 k1 k2 k3
+            -- side conditions of `combine`
+            have hLal : hasLeaf = true → Al q r.1 L := fun hh => (hAl L).2 (Or.inr ⟨hh, rfl⟩)
+            have hIal : Al q r.1 I := (hAl I).2 (Or.inl ⟨hhI, rfl⟩)
+            have hkeptOf : ∀ j n, (∃ hj : j < indices.toList.length, IsKept ws indices.toList[j] n) → KeptIn ws indices n := by
+              rintro j n ⟨hj, it, e⟩
+              exact ⟨indices.toList[j], by simpa using List.getElem_mem hj, it, e⟩
+            have hnid : ∀ j, ¬ ((hasLeaf = true ∧ j = a.laneWithLeaf ∧ I = L) ∨
+                (∃ hj : j < indices.toList.length, IsKept ws indices.toList[j] I)) := by
+              rintro j (⟨hh, _, e⟩ | hk)
+              · exact A2.ne hhI hh e
+              · exact hKeptNotAl I (hkeptOf j I hk) hIal
+            have hdis : ∀ i j, i ≠ j → ∀ n, ((hasLeaf = true ∧ i = a.laneWithLeaf ∧ n = L) ∨
+                (∃ hj : i < indices.toList.length, IsKept ws indices.toList[i] n)) →
+                ¬ ((hasLeaf = true ∧ j = a.laneWithLeaf ∧ n = L) ∨
+                (∃ hj : j < indices.toList.length, IsKept ws indices.toList[j] n)) := by
+              rintro i j hij n (⟨hh, e1, rfl⟩ | ⟨hi, hk⟩) (⟨hh', e2, e3⟩ | ⟨hj, hk'⟩)
+              · omega
+              · exact hKeptNotAl _ (hkeptOf j _ ⟨hj, hk'⟩) (hLal hh)
+              · subst e3; exact hKeptNotAl _ (hkeptOf i _ ⟨hi, hk⟩) (hLal hh')
+              · obtain ⟨it, e, e1, e2⟩ := hk
+                obtain ⟨it', e', e1', e2'⟩ := hk'
+                have := wok.inj _ _ it it' e e' (by rw [e1, e1']) (by rw [e2, e2'])
+                have := (List.getElem_inj hnd).1 this
+                exact hij this
+            have hcomb := SubS.combine nodeI hnI pI.2.2.1 pI.1 pI.2.1 hch s0 s1 s2 s3 (hnid 0) (hnid 1) (hnid 2) (hnid 3)
+              (hdis 0 1 (by omega)) (hdis 0 2 (by omega)) (hdis 0 3 (by omega)) (hdis 1 2 (by omega)) (hdis 1 3 (by omega))
+              (hdis 2 3 (by omega))
+            rw [hid]; simp only [hhI, if_true]
+            refine hcomb.congr ?_ ?_ ?_
+            · intro n
+              rw [hAl n]
+              simp only [hhI, true_and]
+              constructor
+              · rintro (e | ⟨hh, _, e⟩ | ⟨hh, _, e⟩ | ⟨hh, _, e⟩ | ⟨hh, _, e⟩)
+                · exact Or.inl e
+                all_goals exact Or.inr ⟨hh, e⟩
+              · rintro (e | ⟨hh, e⟩)
+                · exact Or.inl e
+                · obtain ⟨i, hi, _, e'⟩ := hlw hh
+                  have : i = 0 ∨ i = 1 ∨ i = 2 ∨ i = 3 := by omega
+                  rcases this with rfl | rfl | rfl | rfl
+                  · exact Or.inr (Or.inl ⟨hh, e'.symm, e⟩)
+                  · exact Or.inr (Or.inr (Or.inl ⟨hh, e'.symm, e⟩))
+                  · exact Or.inr (Or.inr (Or.inr (Or.inl ⟨hh, e'.symm, e⟩)))
+                  · exact Or.inr (Or.inr (Or.inr (Or.inr ⟨hh, e'.symm, e⟩)))
+            · intro n
+              constructor
+              · rintro (hk | hk | hk | hk)
+                · exact hkeptOf 0 n hk
+                · exact hkeptOf 1 n hk
+                · exact hkeptOf 2 n hk
+                · exact hkeptOf 3 n hk
+              · rintro ⟨i, hi, it, e⟩
+                obtain ⟨j, hj, ej⟩ := hpos i hi
+                have : j = 0 ∨ j = 1 ∨ j = 2 ∨ j = 3 := by omega
+                rcases this with rfl | rfl | rfl | rfl
+                · exact Or.inl ⟨hj, it, by rw [ej]; exact e⟩
+                · exact Or.inr (Or.inl ⟨hj, it, by rw [ej]; exact e⟩)
+                · exact Or.inr (Or.inr (Or.inl ⟨hj, it, by rw [ej]; exact e⟩))
+                · exact Or.inr (Or.inr (Or.inr ⟨hj, it, by rw [ej]; exact e⟩))
+            · intro n
+              constructor
+              · rintro (⟨_, _, e⟩ | ⟨_, _, e⟩ | ⟨_, _, e⟩ | ⟨_, _, e⟩) <;> exact e
+              · intro hl
+                have hh : hasLeaf = true := hL.2 (by
+                  obtain ⟨i, hi, it, e⟩ := hl
+                  exact ⟨i, by simpa using hi, it.orig, it, e.1, e.2.1, rfl⟩)
+                obtain ⟨i, hi, _, e'⟩ := hlw hh
+                have : i = 0 ∨ i = 1 ∨ i = 2 ∨ i = 3 := by omega
+                rcases this with rfl | rfl | rfl | rfl
+                · exact Or.inl ⟨hh, e'.symm, hl⟩
+                · exact Or.inr (Or.inl ⟨hh, e'.symm, hl⟩)
+                · exact Or.inr (Or.inr (Or.inl ⟨hh, e'.symm, hl⟩))
+                · exact Or.inr (Or.inr (Or.inr ⟨hh, e'.symm, hl⟩))
+          · -- no kept entry
+            have hnoKept : ∀ n, ¬ KeptIn ws indices n := by
+              rintro n ⟨i, hi, it, e, e1, e2⟩
+              exact hhI (hI.2 ⟨i, by simpa using hi, n, it, e, e1, e2⟩)
+            rw [hid]; simp only [hhI, if_false]
+            by_cases hh : hasLeaf = true
+            · have := hLeafNode hh
+              rw [cL.2.1, cL.2.2.1] at this
+              simp only [hhI, if_false] at this
+              refine this.congr ?_ ?_ ?_
+              · intro n; rw [hAl n]; simp [hhI, hh]
+              · intro n; exact ⟨fun hf => hf.elim, fun e => hnoKept n e⟩
+              · intro n; exact Iff.rfl
+            · have hLm : L = MAXN := A2.noL (by simpa using hh)
+              rw [hLm]
+              refine (SubS.empty r.1 par plane).congr ?_ ?_ ?_
+              · intro n; rw [hAl n]; simp [hhI, hh]
+              · intro n; exact ⟨fun hf => hf.elim, fun e => hnoKept n e⟩
+              · intro n
+                refine ⟨fun hf => hf.elim, ?_⟩
+                rintro ⟨i, hi, it, e, e1, e2⟩
+                exact hh (hL.2 ⟨i, by simpa using hi, n, it, e, e1, e2⟩)
+        refine ⟨hframe, ?_, ?_, ?_, ?_, hsubst, ?_, ?_⟩
+        · intro m hm hk
+          rw [hOld m hm, o.nodeSame m (fun hh => hk ((hKeptL m).2 hh))]
+          exact A2.same m (fun hh => hm ((hAl m).2 ((A2.al m).1 hh)))
+        · intro k hk
+          obtain ⟨i, hi, it, e, hlf, rfl⟩ := hk
+          obtain ⟨j, hj, ej⟩ := hpos i hi
+          obtain ⟨_, it', e', _, f2⟩ := hitem j hj
+          rw [ej, e] at e'; cases e'
+          obtain ⟨_, _, _, _, cn, c5, c6⟩ := f2 hlf
+          have hnal := hKeptNotAl it.orig ⟨i, hi, it, e, hlf, rfl⟩
+          refine ⟨cn, { cn with parent := I, plane := j }, ?_, by rw [hOld _ hnal]; exact c6, rfl, rfl, rfl, rfl, rfl⟩
+          rw [← A2.same _ (fun hh => hnal ((hAl _).2 ((A2.al _).1 hh)))]; exact c5
+        · intro p hp
+          rw [hprox2, o.proxySame p (fun hh => hp ((hLeafL p).2 hh)), A2.prox]
+        · rintro p ⟨i, hi, it, e, hlf, rfl⟩
+          obtain ⟨j, hj, ej⟩ := hpos i hi
+          obtain ⟨_, it', e', f1, _⟩ := hitem j hj
+          rw [ej, e] at e'; cases e'
+          obtain ⟨_, _, _, _, pr, c5, c6⟩ := f1 hlf
+          exact ⟨pr, { pr with node := L, lane := j }, by rw [← A2.prox]; exact c5, by rw [hprox2]; exact c6, rfl⟩
+        · intro n nd hn hnd'
+          rw [hG n] at hnd'
+          rcases (hAl n).1 hn with ⟨hh, rfl⟩ | ⟨hh, rfl⟩
+          · by_cases hx : hasLeaf = true ∧ n = L
+            · simp only [hx, and_self, if_true, Option.some.injEq] at hnd'; subst hnd'; exact cL.2.2.2.2
+            · simp only [hx, if_false, hh, true_and, if_true, Option.some.injEq] at hnd'; subst hnd'; exact pI.2.2.2
+          · simp only [hh, true_and, if_true, Option.some.injEq] at hnd'; subst hnd'; exact cL.2.2.2.2
+        · intro n hn
+          rw [hsize2, o.nsize]
+          rcases (hAl n).1 hn with ⟨hh, rfl⟩ | ⟨hh, rfl⟩
+          · exact A2.ltI hh
+          · exact A2.ltL hh
